@@ -550,8 +550,12 @@ def compare_run(ctx, case, res, prob, ops2, et, ktol, rho0, U_of_t=None, has_ene
             if bad:
                 bad = bad + (t,)
     if bad:
-        ctx.violation(f"{bad[0]} at t={bad[4]} (value {bad[2]:.3g}, bound {bad[3]:.3g})",
-                      {"case": case, "worst": worst, "finding_key": bad[1]})
+        hist = case.get("history")
+        ctx.violation(f"{bad[0]} at t={bad[4]} (value {bad[2]:.3g}, bound {bad[3]:.3g})"
+                      + (f" — run number {hist['position'] + 1} of a sequence of runs in one process that share the "
+                         f"drive and differ in the noise ({hist['order']})" if hist else ""),
+                      {"case": case, "worst": worst,
+                       "finding_key": "lindblad-depends-on-history" if hist else bad[1]})
     return worst
 
 
@@ -864,7 +868,8 @@ def run_pulser_case(ctx, case):
             if max(e_occ, e_cor) > tol:
                 ctx.violation(f"occupation/correlation returned by run() number {ri + 1} (n_trajectories={ntraj}) differ "
                               f"from the Lindblad reference at t={t} by {max(e_occ, e_cor):.3g} (bound {tol:.3g})",
-                              {"case": case, "finding_key": "run-average-differs"})
+                              {"case": case, "finding_key": "lindblad-depends-on-history" if case.get("history")
+                               else "run-average-differs"})
                 return worst
     return worst
 
@@ -1084,6 +1089,161 @@ def precision_stage(ctx, n_cases):
     ctx.extra["precision_stream_worst_relative_error"] = worst
 
 
+# =====================================================================================================
+# history stream: a run must not depend on what the process evolved before.  Sequences of 2-4 density-matrix
+# evolutions in ONE process that share the drive (constant pulse, delay only, plateaus at the start and the end) and
+# differ in the noise; every run against the dense reference, in both orders; and the same at the step level.
+NOISE_MENU = ["relaxation", "dephasing", "depolarizing", "eff", "eff2", "weak-relaxation", "pumping"]
+
+
+def history_ops(rng, kind):
+    z = [0.0, 0.0]
+    r = lambda lo, hi: rng.uniform(lo, hi)  # noqa: E731
+    if kind == "relaxation":
+        return [[[z, [math.sqrt(r(0.5, 3.0)), 0.0]], [z, z]]]
+    if kind == "weak-relaxation":
+        return [[[z, [math.sqrt(r(0.01, 0.05)), 0.0]], [z, z]]]
+    if kind == "pumping":
+        return [[[z, z], [[math.sqrt(r(0.5, 3.0)), 0.0], z]]]
+    if kind == "dephasing":
+        c = math.sqrt(r(0.5, 3.0) / 2)
+        return [[[[c, 0.0], z], [z, [-c, 0.0]]]]
+    if kind == "depolarizing":
+        c = math.sqrt(r(0.5, 3.0) / 4)
+        return [[[z, [c, 0.0]], [[c, 0.0], z]], [[z, [0.0, -c]], [[0.0, c], z]], [[[c, 0.0], z], [z, [-c, 0.0]]]]
+    g = lambda: [rng.gauss(0, 0.8), rng.gauss(0, 0.8)]  # noqa: E731
+    return [[[g(), g()], [g(), g()]] for _ in range(1 if kind == "eff" else 2)]
+
+
+def gen_history_family(rng, thorough):
+    n = rng.choice([1, 2, 2, 3])
+    steps = rng.choice([2, 3, 4])
+    shape = rng.choice(["constant", "constant", "delay", "plateau"])
+    dt = rng.choice([5.0, 10.0, 20.0])
+    om0, de0, ph0 = rng.uniform(2.0, 9.0), rng.uniform(-6.0, 6.0), rng.choice([0.0, rng.uniform(0.2, 3.0)])
+    omega = np.full((steps, n), om0)
+    delta = np.full((steps, n), de0)
+    phi = np.full((steps, n), ph0)
+    if shape == "delay":
+        omega[:], delta[:], phi[:] = 0.0, 0.0, 0.0
+    if shape == "plateau" and steps >= 3:          # equal first and last step, something else in between
+        omega[1:-1] = om0 * 0.37
+        delta[1:-1] = de0 + 1.3
+    pos = [(4.0 * i, 1.5 * (i % 2)) for i in range(n)]
+    U = np.zeros((n, n))
+    for i in range(n):
+        for j in range(i + 1, n):
+            U[i, j] = U[j, i] = 5.0 * 6 ** 0 / (math.dist(pos[i], pos[j]) / 4.0) ** 6
+    prob = dict(n=n, steps=steps, times=[dt * k for k in range(steps + 1)], omega=omega, delta=delta, phi=phi, U=U, xy=False)
+    kinds = rng.sample(NOISE_MENU, rng.choice([2, 3, 4]))
+    rho0_seed = rng.randrange(10 ** 6) if (shape == "delay" or rng.random() < 0.5) else None
+    return {"kind": "history", "shape": shape, "prob": _ser_prob(prob), "noise_kinds": kinds,
+            "ops": [history_ops(rng, k) for k in kinds], "rho0_seed": rho0_seed, "ktol": 1e-10}
+
+
+def history_hand(ctx, fam):
+    """the same SequenceData drive, different jump operators, through SVBackend._run_from_sequence_data, in the given
+    order and reversed"""
+    worst = 0.0
+    order = list(range(len(fam["ops"])))
+    for label, seq in (("given order", order), ("reversed", order[::-1])):
+        for pos, i in enumerate(seq):
+            case = {"kind": "hand", "prob": fam["prob"], "ops": fam["ops"][i], "ktol": fam["ktol"],
+                    "rho0_seed": fam["rho0_seed"], "time_dep_U": False,
+                    "history": {"position": pos, "order": label + ": " + " -> ".join(fam["noise_kinds"][j] for j in seq),
+                                "family": {k: fam[k] for k in ("shape", "noise_kinds", "ops")}}}
+            w = run_hand_case(ctx, case)
+            if w and "state" in w:
+                worst = max(worst, w["state"])
+    return worst
+
+
+def history_step(ctx, fam):
+    """step level: consecutive EvolveDensityMatrix.apply calls with equal drive and different jump operators (the very
+    same tensors and equal copies), each against expm of the dense Liouvillian of ITS OWN operators"""
+    import random as _random
+    import scipy.linalg as sla
+    import torch
+    import emu_sv.time_evolution as te
+
+    prob = _deser_prob(fam["prob"])
+    n = prob["n"]
+    d = 2 ** n
+    rho0 = rand_rho(_random.Random(fam["rho0_seed"] or 1), n)
+    t = lambda a, dt_=torch.complex128: torch.tensor(np.asarray(a), dtype=dt_)  # noqa: E731
+    om, de, ph, U = t(prob["omega"][0]), t(prob["delta"][0]), t(prob["phi"][0]), t(prob["U"], torch.float64)
+    dt = (prob["times"][1] - prob["times"][0]) * 1e-3
+    H = D.dense_H(prob["omega"][0], prob["delta"][0], prob["phi"][0], prob["U"])
+    worst = 0.0
+    seq = list(range(len(fam["ops"]))) + list(range(len(fam["ops"])))[::-1]
+    for pos, i in enumerate(seq):
+        ops2 = _ops_to_np(fam["ops"][i])
+        Js = [D._embed(L, q, n) for q in range(n) for L in ops2]
+        ref = (sla.expm(liouvillian(H, Js) * dt) @ rho0.reshape(-1)).reshape(d, d)
+        same_objects = pos % 2 == 0
+        args = (om, de, ph, U) if same_objects else (om.clone(), de.clone(), ph.clone(), U.clone())
+        Ls = [t(L) for L in ops2]
+        out, ham = te.EvolveDensityMatrix.apply(dt, *args, t(rho0), fam["ktol"], Ls)
+        err = float(np.abs(out.numpy() - ref).max())
+        worst = max(worst, err)
+        held = list(getattr(ham, "pulser_lindblads", []))
+        own = len(held) == len(Ls) and all(a is b for a, b in zip(held, Ls))
+        if err > state_tol(fam["ktol"], 1) or not own:
+            ctx.violation(
+                f"step {pos + 1} of consecutive EvolveDensityMatrix.apply calls with equal drive and jump operators "
+                f"{fam['noise_kinds'][i]} (after {[fam['noise_kinds'][j] for j in seq[:pos]]}) differs from "
+                f"expm(L dt) rho by {err:.3g}; returned generator carries this call's operators: {own}",
+                {"case": dict(fam, step_sequence=seq, failing_position=pos),
+                 "finding_key": "lindblad-depends-on-history"})
+            break
+    return worst
+
+
+def gen_history_pulser(rng):
+    base = gen_pulser_case(rng, False)
+    base["pulses"] = [{"dur": rng.choice([40, 60]), "amp": round(rng.uniform(2.0, 6.0), 2),
+                       "det": round(rng.uniform(-3.0, 3.0), 2), "phase": 0.0, "local": False}]
+    base.update(n_traj=1, twice=False, rho0_seed=rng.randrange(10 ** 6) if rng.random() < 0.5 else None, ktol=1e-10)
+    menus = [{"relaxation_rate": round(rng.uniform(0.3, 1.5), 3)}, {"dephasing_rate": round(rng.uniform(0.3, 1.5), 3)},
+             {"depolarizing_rate": round(rng.uniform(0.3, 1.0), 3)},
+             {"eff_noise_rates": [round(rng.uniform(0.3, 1.5), 3)],
+              "eff_noise_opers": [[[[round(rng.gauss(0, 0.6), 3), round(rng.gauss(0, 0.6), 3)] for _ in range(2)]
+                                   for _ in range(2)]]},
+             {"relaxation_rate": round(rng.uniform(1.6, 3.0), 3)}]
+    pick = rng.sample(range(len(menus)), rng.choice([2, 3]))
+    return {"kind": "history-pulser", "base": base, "noises": [menus[i] for i in pick]}
+
+
+def history_pulser(ctx, fam):
+    worst = 0.0
+    order = list(range(len(fam["noises"])))
+    for label, seq in (("given order", order), ("reversed", order[::-1])):
+        for pos, i in enumerate(seq):
+            case = dict(fam["base"], noise=fam["noises"][i],
+                        history={"position": pos, "order": label + ": " + " -> ".join(
+                            "+".join(sorted(fam["noises"][j])) for j in seq)})
+            w = run_pulser_case(ctx, case)
+            if w:
+                worst = max(worst, w["state"])
+    return worst
+
+
+def history_stage(ctx, n_hand, n_pulser):
+    worst = {"hand": 0.0, "step": 0.0, "pulser": 0.0}
+    for _ in range(n_hand):
+        fam = gen_history_family(ctx.rng, ctx.thorough())
+        worst["hand"] = max(worst["hand"], history_hand(ctx, fam))
+        worst["step"] = max(worst["step"], history_step(ctx, fam))
+        ctx.count_case({"kind": "history", "shape": fam["shape"], "n": fam["prob"]["n"], "noise": fam["noise_kinds"],
+                        "rho0": fam["rho0_seed"] is not None}, nontrivial=True)
+    for _ in range(n_pulser):
+        fam = gen_history_pulser(ctx.rng)
+        worst["pulser"] = max(worst["pulser"], history_pulser(ctx, fam))
+        ctx.count_case({"kind": "history-pulser", "n": fam["base"]["n"], "noises": [sorted(x) for x in fam["noises"]],
+                        "pulses": fam["base"]["pulses"]}, nontrivial=True)
+    ctx.extra["history_stream_worst_state_error"] = worst
+
+
 def run(ctx):
     common.coq_make(["Model/SvLindRun.vo"])
     common.standard_proof_stage(ctx, "C16", ["Properties/C16.vo"])
@@ -1092,6 +1252,7 @@ def run(ctx):
     source_shape_stage(ctx)
     precision_stage(ctx, ctx.n(40, 400))
     ownership_stage(ctx, ctx.n(15, 150))
+    history_stage(ctx, ctx.n(8, 80), ctx.n(3, 25))
     e2e_stage(ctx, ctx.n(22, 320), ctx.n(12, 120), ctx.n(8, 60))
     ctx.rule = ("(a) operator cases N=1..3(4): integer/half-integer drives, Gaussian-integer jump operators and "
                 "density matrices (75% Hermitian), dyadic dt, real and prescribed-phase paths; non-trivial = at least "
@@ -1108,7 +1269,10 @@ def run(ctx):
                 "pure / mixed full-rank / non-normalised initial states) config.initial_state and the user's tensor are "
                 "bit-identical to before and share no storage with the evolving state; hand-built cases run twice with "
                 "the same config, pulser cases also call run() twice on one backend and use n_trajectories=3 with "
-                "amp_sigma=1e-9; every emulated trajectory and the averaged observables are compared with the reference.")
+                "amp_sigma=1e-9; every emulated trajectory and the averaged observables are compared with the reference. "
+                "(f) history: sequences of 2-4 runs in one process sharing the drive (constant, delay, plateaus) and "
+                "differing in the jump operators / NoiseModel, both orders, through _run_from_sequence_data, through "
+                "SVBackend(seq).run() and through consecutive EvolveDensityMatrix.apply calls, each against the reference.")
     ctx.trusted_base += ["hand-written Model/SvLindRun.v (validated by the two correspondences on every run) on top of "
                          "Model/SvHam.v lind_matmul (C06's model, re-validated here through dm_op)",
                          "dense reference: numpy kron + scipy.linalg.expm; drive samples of pulser runs are taken from "
@@ -1130,7 +1294,15 @@ def replay(ctx, path):
     case = rp["case"]
     if case.get("kind") == "precision":
         print("replay worst relative error:", precision_case(ctx, case))
+    if case.get("kind") == "history":
+        print("replay: hand", history_hand(ctx, case), "step", history_step(ctx, case))
+    if case.get("kind") == "history-pulser":
+        print("replay:", history_pulser(ctx, case))
     if case.get("kind") in ("hand", "pulser"):
+        fam = (case.get("history") or {}).get("family")
+        if fam:      # a run that failed as part of a sequence: replay the whole sequence
+            full = {"kind": "history", "prob": case["prob"], "rho0_seed": case["rho0_seed"], "ktol": case["ktol"], **fam}
+            print("replay of the whole sequence: hand", history_hand(ctx, full), "step", history_step(ctx, full))
         w = run_case(ctx, case)
         print("replay worst deviations:", w)
 
